@@ -4,6 +4,7 @@ open IrVerif.LinkedSet
 #print axioms C11_rep_step
 #print axioms C11_rep_history
 #print axioms C11_refine_step
+#print axioms C11_rep_toList
 #print axioms C11_refine_next
 #print axioms C11_refine_start
 #print axioms C11_refine_rest
